@@ -611,6 +611,54 @@ type recViaOmitPtr struct {
 	Leaf  sharedLeaf                `json:"leaf"`
 }
 
+type ptrA struct {
+	N int   `json:"n"`
+	B *ptrB `json:"b,omitempty"`
+}
+type ptrB struct {
+	S string `json:"s"`
+	A *ptrA  `json:"a,omitempty"`
+}
+type tri1 struct {
+	Next *tri2 `json:"next,omitempty"`
+	V    int   `json:"v"`
+}
+type tri2 struct {
+	Next *tri3  `json:"next,omitempty"`
+	W    string `json:"w"`
+}
+type tri3 struct {
+	Next *tri1   `json:"next,omitempty"`
+	X    float64 `json:"x"`
+}
+type selfTwice struct {
+	L *selfTwice `json:"l,omitempty"`
+	R *selfTwice `json:"r,omitempty"`
+	K string     `json:"k"`
+}
+type mapPtrA struct {
+	M map[string]*mapPtrB `json:"m,omitempty"`
+	I int                 `json:"i"`
+}
+type mapPtrB struct {
+	A    *mapPtrA   `json:"a,omitempty"`
+	Leaf sharedLeaf `json:"leaf"`
+}
+type slicePtrA struct {
+	Bs []*slicePtrB `json:"bs,omitempty"`
+	T  string       `json:"t"`
+}
+type slicePtrB struct {
+	A *slicePtrA `json:"a,omitempty"`
+	U int        `json:"u"`
+}
+type twoCycles struct {
+	List *recList   `json:"list,omitempty"`
+	Pair *ptrA      `json:"pair,omitempty"`
+	Me   *twoCycles `json:"me,omitempty"`
+	Z    int        `json:"z"`
+}
+
 type C18CorpusCase struct {
 	Type  int `json:"type"`
 	Style int `json:"style"`
@@ -620,6 +668,8 @@ type C18CorpusCase struct {
 var c18Corpus = []reflect.Type{
 	reflect.TypeOf(recList{}), reflect.TypeOf(recTree{}), reflect.TypeOf(recMap{}), reflect.TypeOf(mutA{}), reflect.TypeOf(mutB{}),
 	reflect.TypeOf(recPtrSlice{}), reflect.TypeOf(deepRoot{}), reflect.TypeOf(recViaOmitPtr{}),
+	reflect.TypeOf(ptrA{}), reflect.TypeOf(ptrB{}), reflect.TypeOf(tri1{}), reflect.TypeOf(tri3{}), reflect.TypeOf(selfTwice{}),
+	reflect.TypeOf(mapPtrA{}), reflect.TypeOf(mapPtrB{}), reflect.TypeOf(slicePtrA{}), reflect.TypeOf(twoCycles{}),
 }
 
 // populateRec fills a recursive value down to the given depth; below it pointers stay nil and containers empty (all omitempty in the corpus).
